@@ -122,9 +122,11 @@ std::string snapshot() {
     snprintf(b, sizeof b, "|ctx:%ld:%d:%d|fd:%zu:%zu|ep:", (long)m_ctx_len(), known, looping, R->k.open_count(sim::OWN_LIB), R->k.open_count(sim::OWN_USER));
     s += b;
     size_t regs = 0, bytes = 0;
-    for (auto &f : R->k.all_files()) {
-        if (f->kind == sim::F_EPOLL) regs += f->regs.size();
-        if (f->kind == sim::F_PIPE_R) bytes += f->pipe->buf.size();
+    for (auto &e : R->k.fds) {
+        // only what the library owns: the environment may write to user descriptors at any time
+        if (!e.file || e.owner != sim::OWN_LIB) continue;
+        if (e.file->kind == sim::F_EPOLL) regs += e.file->regs.size();
+        if (e.file->kind == sim::F_PIPE_R) bytes += e.file->pipe->buf.size();
     }
     snprintf(b, sizeof b, "%zu|pipe:%zu|alloc:%zu", regs, bytes, R->a.outstanding());
     s += b;
@@ -387,6 +389,7 @@ void world_init(World &w, const Program &p) {
 }
 
 // ------------------------------------------------------------------ loop handling
+static void quiescent_hook(bool real_poll = false);
 static void loop_begin(bool blocking) {
     LoopRun lr;
     lr.id = W->loops.size() + 1;
@@ -395,6 +398,7 @@ static void loop_begin(bool blocking) {
     W->loops.push_back(lr);
     W->ctx_looping = true;
     W->loop_start_pending_eval = true;
+    W->reg_dereg_since_quiescent = 0;   // only (de)registrations made during the start pass itself excuse a delay
 }
 static void loop_end(int rc) {
     if (W->loops.empty() || W->loops.back().ended) return;
@@ -404,12 +408,14 @@ static void loop_end(int rc) {
     lr.end_gseq = R->gseq;
     lr.poll_failure = R->k.poll_failure_injected;
     R->k.poll_failure_injected = false;
+    if (W->loop_start_pending_eval) quiescent_hook();   // loop ended without ever polling: the start pass still happened
     W->ctx_looping = false;
     sim::tr("loop_end", rc);
     // messages for modules that are PAUSED when the loop ends are discarded
+    // (sends made by handlers of the final flush itself come after the flush that would discard them: left unconstrained)
     for (auto &sd : W->sends)
         for (int e : sd.eligible)
-            if (!sd.delivered.count(e) && W->slots[e].st == ST_PAUSED) sd.dead.insert(e);
+            if (!sd.in_flush && !sd.delivered.count(e) && W->slots[e].st == ST_PAUSED) sd.dead.insert(e);
     orc_loop_end(lr);
     // the context may have been released with its last module
     bool known;
@@ -431,6 +437,7 @@ static int do_dispatch_once() {
         W->loops.back().ended = true;
         W->ctx_looping = false;
     }
+    if (known0 && !l0 && l1) quiescent_hook();   // the start pass is over: same checks as at the first poll
     if (l0 && !l1) loop_end(rc);
     sim::tr("dispatch", rc, l1);
     return rc;
@@ -1100,8 +1107,9 @@ static void do_send(int kind, int from, int to, long topic_idx, bool autofree, i
 }
 
 // ------------------------------------------------------------------ driver + teardown
-static void quiescent_hook() {
+static void quiescent_hook(bool real_poll) {
     if (!W) return;
+    W->quiescent_real = real_poll;
     if (sim::self_id() != 0) return;
     sample_states("quiescent");
     W->quiescent_points++;
@@ -1153,7 +1161,7 @@ void teardown() {
 }
 
 void run_driver() {
-    R->k.on_epoll_wait = quiescent_hook;
+    R->k.on_epoll_wait = []() { quiescent_hook(true); };
     for (const Op &op : W->prog.ops) {
         if (op.where != "D") continue;
         exec_op(op, false, -1);
